@@ -157,6 +157,7 @@ class AclMachine(Machine):
         )
         bias = BIAS.get(self.prop)
         if self.prop == "C04":
+            cfg["p_related"] = w.choice([0.5, 0.8, 0.9])
             cfg["p_group"] = w.choice([0.1, 0.25, 0.45])
             cfg["empty_ports"] = w.random() < 0.4
             cfg["p_multi_neq"] = w.choice([0.0, 0.0, 0.6])
@@ -1517,7 +1518,9 @@ class AclMachine(Machine):
             self._plan = [(t, "shadow_triple", {})]
         if kind == "tcam" and s.random() < 0.5:
             self._plan = [(t, "set_members", {}), (t, "tcam", {})]
-        if kind == "resequence" and self.prop in ("C10", "C17") and s.random() < 0.3:
+        if kind == "resequence" and self.prop in ("C15", "C17") and s.random() < 0.5:
+            self._plan = [(t, "permute_popins", {}), (t, "permute_popins", {}), (t, "sort", {})]
+        elif kind == "resequence" and self.prop in ("C10", "C17") and s.random() < 0.3:
             self._plan = [(t, "set_item_seq", {}), (t, "resequence",
                                                     {k_: op[k_] for k_ in op if k_ != "memo"})]
         if kind in ("shading", "shadow_of") and s.random() < 0.6 and any(
@@ -1562,6 +1565,11 @@ class AclMachine(Machine):
             span = max(nl - 1, 0) * step
             start = s.choice([0, 1, 10, 10, 100, SEQ_MAX - span, SEQ_MAX - span - 1,
                               s.randint(1, 10 ** 6)])
+            if s.random() < 0.3:
+                # numbers that cross a digit boundary inside the ACL (9 -> 10, 99 -> 100)
+                step = s.choice([1, 2, 5])
+                start = s.choice([5, 8, 9, 95, 98, 99, 995])
+                span = max(nl - 1, 0) * step
             if cfg["aborts"]:
                 step = s.choice([step, step, step, 0, -5, -1])
                 start = s.choice([start, start, start, SEQ_MAX - span + 1, SEQ_MAX, SEQ_MAX + 1,
